@@ -37,6 +37,9 @@ def run(ctx, oracle, deep_need=None, use=("exh", "rand", "nat", "voc", "perop", 
     if ctx.shard == 0:
         for name, prog in workload.directed_programs():
             one("directed-" + name, asm.assemble(prog), asm.names(prog))
+    if ctx.shard == 1 % ctx.nshards:
+        for name, prog in workload.multiplicity_programs():
+            one("directed-" + name, asm.assemble(prog), asm.names(prog))
     if "perop" in use and ctx.shard == 0:
         for name, prog in workload.per_opcode_programs():
             one("perop-" + name, asm.assemble(prog), asm.names(prog))
